@@ -59,6 +59,7 @@ type Config struct {
 	AssertSolver string // one-shot back end for assertion queries (e.g. cvc5-int for checksum arithmetic)
 	AssertTimeoutMs int
 	BMCTimeoutMs    int
+	DivergeViolation bool // exceeding the unwinding / step bound is non-termination, reported with a model
 	NoLemmas bool // do not add proven assertions to the path condition
 }
 
@@ -456,7 +457,11 @@ func (x *X) runPathEntry(entry func()) (kind string) {
 			case "unsupported":
 				x.St.Inconclusive = append(x.St.Inconclusive, "unsupported: "+pe.msg)
 			case "unwind":
-				x.St.Inconclusive = append(x.St.Inconclusive, "unwinding bound reached: "+pe.msg)
+				if x.Cfg.DivergeViolation {
+					x.reportDiverge()
+				} else {
+					x.St.Inconclusive = append(x.St.Inconclusive, "unwinding bound reached: "+pe.msg)
+				}
 			case "blocked":
 				x.note("path ends blocked: " + pe.msg)
 			}
@@ -464,6 +469,21 @@ func (x *X) runPathEntry(entry func()) (kind string) {
 	}()
 	entry()
 	return "return"
+}
+
+// reportDiverge: the bounds of this obligation are derived from the input size (every loop
+// iteration must consume input), so running past them means the code does not terminate.
+func (x *X) reportDiverge() {
+	r, vals := x.check(nil, x.inputs)
+	if r == smt.Unsat {
+		return
+	}
+	if r == smt.Unknown {
+		x.St.Inconclusive = append(x.St.Inconclusive, "divergence reachability unknown")
+		return
+	}
+	x.St.Violations = append(x.St.Violations, Violation{Msg: "the operation does not terminate on this input (loop bound derived from the input size exceeded)", Kind: "diverge",
+		Model: x.modelOf(vals), Where: x.where(), PathNo: x.St.Paths})
 }
 
 func (x *X) reportPanic(msg string) {
